@@ -1,9 +1,9 @@
 package checks
 
 import (
-	"runtime"
 	"encoding/json"
 	"fmt"
+	"runtime"
 	"time"
 
 	"verif/bfs"
